@@ -106,6 +106,10 @@ theorem src_naive_time_mod_rs_fn_parse_and_remainder : C13_src_naive_time_mod_rs
 theorem src_naive_time_mod_rs_fn_parse_from_str : C13_src_naive_time_mod_rs_fn_parse_from_str =
     ["v1", "&", "str", "v2", "&", "str", "->", "ParseResult", "<", "NaiveTime", ">", "v3", "Parsed", "new(", "parse(", "&", "v3", "v1", "StrftimeItems", "new(", "v2", "?", "v3", "to_naive_time("] := by decide +kernel
 
+/-- src/traits.rs:fn hour12 -/
+theorem src_traits_rs_fn_hour12 : C13_src_traits_rs_fn_hour12 =
+    ["&", "self", "->", "bool", "u32", "v1", "self", "hour(", "v2", "v1", "%", "12", "if", "v2", "==", "0", "v2", "12", "v1", ">=", "12", "v2"] := by decide +kernel
+
 /-- callee src/datetime/mod.rs:fn from_naive_utc_and_offset -/
 theorem callee_src_datetime_mod_rs_fn_from_naive_utc_and_offset : C13_callee_src_datetime_mod_rs_fn_from_naive_utc_and_offset =
     ["v1", "NaiveDateTime", "v2", "Tz", "Offset", "->", "DateTime", "<", "Tz", ">", "DateTime", "v1", "v2"] := by decide +kernel
